@@ -436,7 +436,10 @@ pub fn apply_structural(w: &World, m: &mut Msg, sets: &mut Vec<SetInfo>, kind: S
                 }
             };
             let signed = !sigs_of(m, &s).is_empty();
-            Some(Applied { effect: if signed { breaking_set(&s) } else { Effect::Neutral }, label: label(name, &s), touches_signed: signed, forged_zone: None })
+            // the CNAME that accompanies a DNAME is covered by the DNAME's
+            // signature only as long as it is exactly the synthesised one
+            let synth = s.roles.contains(&Role::SynthCname);
+            Some(Applied { effect: if signed || synth { breaking_set(&s) } else { Effect::Neutral }, label: label(if synth { "tamper-synthesized-cname" } else { name }, &s), touches_signed: signed || synth, forged_zone: None })
         }
         SKind::DropSetKeepSig | SKind::DropSet => {
             let i = pick(&all)?;
